@@ -64,7 +64,7 @@ fn user_new(parameters: &RawParameters, ctx: &dyn Context) -> Result<Op, Error> 
 // ---- the reference reading of a value ------------------------------------------------------------
 
 /// A real: decimal, or sexagesimal d:m:s with an optional hemisphere letter
-fn ref_real(text: &str) -> Option<f64> {
+pub fn ref_real(text: &str) -> Option<f64> {
     let mut t = text.trim();
     if t.is_empty() || t == "NaN" {
         return None;
